@@ -323,3 +323,87 @@ def gen_h1_from_graph(tier: str, rng) -> Iterator[Dict[str, Any]]:
                 if sc is not None:
                     sc["design"] = {"ka": 1}
                     yield sc
+
+
+# ------------------------------------------------------------------------------------------
+# WSock: every action includes the server's reaction, so every edge of the graph is a stimulus.
+# One word per edge (harness/graph_tests.edge_words); ClientFragment's parameters are read off the
+# target state.
+
+WS_UNIT = 10
+
+
+def _ws_graph_cfg() -> str:
+    return "SPECIFICATION Spec\nCONSTANTS\n  MaxMsgs = 2\n  MaxSize = 2\n  Limit = 1\n  Dev <- NoDev\nCHECK_DEADLOCK FALSE\n"
+
+
+def _ws_field(text: str, name: str) -> str:
+    m = re.search(r"/\\\\ %s = (.*?)(?:\\n|\",style|\"\])" % re.escape(name), text)
+    return m.group(1) if m else ""
+
+
+def _ws_cmsg(text: str) -> Dict[str, Any]:
+    raw = _ws_field(text, "cmsg")
+    out = {"kind": re.search(r'kind \|-> \\"(\w*)\\"', raw).group(1)}
+    for k in ("n", "size", "sent"):
+        out[k] = int(re.search(r"%s \|-> (\d+)" % k, raw).group(1))
+    return out
+
+
+def ws_script_from_word(word: List[Any], texts: Dict[str, str], first: str, carrier: str, fam: str) -> Dict[str, Any]:
+    from . import gen_ws
+
+    steps: List[Dict[str, Any]] = []
+    prev = first
+    nsend = 0
+    for label, target in word:
+        m = _LABEL.match(label)
+        name, args = m.group(1), ([x.strip() for x in m.group(2).split(",")] if m.group(2) else [])
+        if name == "AppAccept":
+            steps.append({"s": "op", "app": "1", "op": ["send", {"type": "websocket.accept"}]})
+        elif name == "AppSendMsg":
+            nsend += 1
+            steps.append({"s": "op", "app": "1", "op": ["send", {"type": "websocket.send", "pat": [60, 3 * nsend, 3],
+                                                                 "text": nsend % 2 == 1}]})
+        elif name == "AppClose":
+            steps.append({"s": "op", "app": "1", "op": ["send", {"type": "websocket.close", "code": int(args[0])}]})
+        elif name == "AppRecv":
+            steps.append({"s": "op", "app": "1", "op": ["recv"]})
+        elif name == "ClientFragment":
+            a, b = _ws_cmsg(texts[prev]), _ws_cmsg(texts[target])
+            first_frag = not (a["n"] == b["n"] and a["n"] != 0 and a["sent"] < a["size"])
+            part = b["sent"] - (0 if first_frag else a["sent"])
+            steps.append({"s": "ws", "op": "frag", "kind": b["kind"], "pid": 20 + b["n"], "len": part * WS_UNIT,
+                          "first": first_frag, "fin": b["sent"] == b["size"]})
+        elif name == "ClientClose":
+            code = int(args[0])
+            steps.append({"s": "ws", "op": "close", "code": None if code == 1005 else code})
+        elif name == "ConnLost":
+            steps.append({"s": "eof"})
+        else:
+            raise AssertionError(label)
+        prev = target
+    steps.append({"s": "dt", "d": 0.05})
+    sc = gen_ws.ws_session(carrier, 1, steps, [["remote"]], fam, cfg={"websocket_max_message_size": WS_UNIT})
+    if carrier == "h2":
+        for st in sc["steps"]:
+            if st.get("s") == "ws":
+                st["stream"] = 1
+    return sc
+
+
+def gen_ws_from_graph(tier: str, rng) -> Iterator[Dict[str, Any]]:
+    from . import graph_tests
+
+    inits, adj, texts = graph_tests.dump_graph("MC_WSock", _ws_graph_cfg(), labels=True)
+    for node, text in inits:
+        if "acceptFails = TRUE" in text:
+            continue  # the carrier refusing the handshake response cannot be provoked from outside any more
+        words = graph_tests.edge_words(node, adj)
+        if tier == "quick" and len(words) > 120:
+            words = rng.sample(words, 120)
+        for i, w in enumerate(words):
+            carrier = "h1" if (tier == "thorough" or i % 3) else "h2"
+            yield ws_script_from_word(w, texts, node, carrier, "tlc/WSock/graph-%s" % carrier)
+            if tier == "thorough" and i % 4 == 0:
+                yield ws_script_from_word(w, texts, node, "h2", "tlc/WSock/graph-h2")
